@@ -573,10 +573,11 @@ class StateEngine(object):
         in the ASL Engine at the moment this defensive logic will terminate
         the execution should this situation occur.
         """
-        if next_state == None:
+        if not isinstance(next_state, str) or not next_state:
+            # (An empty name would be taken for an execution not started yet.)
             error_message = ("{} an error occurred while executing the state "
-                             "\"{}\": Mandatory \"Next\" field is missing, "
-                             "Illegal State Machine."
+                             "\"{}\": Mandatory \"Next\" field is missing "
+                             "or does not name a state, Illegal State Machine."
                              ).format(execution_arn, state["Name"])
             self.logger.error(error_message)
             return "States.Runtime", error_message
@@ -2739,6 +2740,19 @@ class StateEngine(object):
                 is an array whose elements MUST be objects. Each object MUST
                 contain fields named “States” and “StartAt” whose meanings are
                 exactly like those in the top level of a State Machine.
+                """
+                branches = state.get("Branches")
+                if (not isinstance(branches, list) or not branches or not
+                    all(isinstance(branch, dict) and
+                        isinstance(branch.get("StartAt"), str) and
+                        branch.get("StartAt") for branch in branches)):
+                    # Nothing could be launched, so nothing would ever join.
+                    raise ValueError(
+                        "\"Branches\" is not a non-empty array of state "
+                        "machines with a \"StartAt\": Illegal State Machine."
+                    )
+
+                """
 
                 Iterate through the branches and launch each branch State Machine.
     
@@ -2953,6 +2967,15 @@ class StateEngine(object):
                 an upper bound on how many invocations of the Iterator may run
                 in parallel. A value of zero means unbounded.
                 """
+                if length and (not isinstance(item_processor, dict) or not
+                               isinstance(item_processor.get("StartAt"), str) or
+                               not item_processor.get("StartAt")):
+                    # Nothing could be launched, so nothing would ever join.
+                    raise ValueError(
+                        "\"ItemProcessor\" (or \"Iterator\") is not a state "
+                        "machine with a \"StartAt\": Illegal State Machine."
+                    )
+
                 max_concurrency = state.get("MaxConcurrency", 0)
                 if max_concurrency == 0:
                     max_concurrency = length
@@ -3563,6 +3586,39 @@ class StateEngine(object):
         if state == None:  # state should be valid by this point
             message = ("{} attempted a transition to a non-existent "
                        "state \"{}\": Illegal State Machine.").format(
+                        execution_arn, current_state
+                      )
+            self.logger.error(message)
+            handle_error({}, "States.Runtime", message)
+            self.event_dispatcher.acknowledge(id)
+            return
+
+        """
+        Check that the state was found in the "States" field that the event
+        belongs to (see above): that of the Parallel Branch or Map Iterator on
+        top of the event's "Branch" stack (the entries without an "Index" are
+        those of a Map state being re-entered for its next batch), or the top
+        level one when the event is not in a Branch or Iterator.
+        """
+        branch_stack = [
+            b for b in (context["State"].get("Branch") or [])
+            if isinstance(b, dict) and "Index" in b
+        ]
+        quoted_state = "['" + current_state + "']"
+        if branch_stack:
+            parent = "['" + str(branch_stack[-1].get("Parent")) + "']"
+            index = str(branch_stack[-1].get("Index"))
+            in_scope = len(state_path) > 0 and state_path[0].endswith((
+                parent + "['Branches'][" + index + "]['States']" + quoted_state,
+                parent + "['Iterator']['States']" + quoted_state,
+                parent + "['ItemProcessor']['States']" + quoted_state,
+            ))
+        else:
+            in_scope = len(state_path) > 0 and state_path[0] == "$" + quoted_state
+        if not in_scope:
+            message = ("{} attempted a transition to the state \"{}\", which is "
+                       "outside the \"States\" field that the transition was "
+                       "made in: Illegal State Machine.").format(
                         execution_arn, current_state
                       )
             self.logger.error(message)
